@@ -20,11 +20,11 @@ TABLE = {
             "Exhaustive typestate analysis of <reqrep::Topic as Future>::poll (slot overwrite, routing of take() to sinks) plus flow rules: the origin "
             "tag is inserted (not or_insert) from the StreamMap key, replies go to entries.get_mut(parsed removed tag) only, tag stripped, payload passed through.",
             "Structural clauses only; payload equality on the wire and replier behaviour not decided.", "§3 C02"),
-    "C03": ("E5+E4", "orientation-parity, flush-before-finish typestate, pipeline table-agreement, panic-site enumeration on batching",
+    "C03": ("E5+E4", "orientation-parity, flush-before-finish typestate, pipeline table-agreement (helpers inlined), pending-has-waker path rule on the client poll functions, frame-limit same-quantity rule, panic-site enumeration on batching",
             "Static rules on the client publisher/subscriber: batch order parity (push/drain/iter vs. consumption end), finish() flushes the framed writer "
             "before SendStream::finish and frames the partial batch, publisher/subscriber pipelines are inverse per frame kind, no configuration-reachable panic in batching.",
             "Value equality, timing of batch cut-off and behaviour over a real server are not decided.", "§3 C03"),
-    "C04": ("E5", "dominance and dataflow rules over requestor/replier MIR",
+    "C04": ("E5", "dominance and dataflow rules over the requestor/replier MIR with async helpers inlined; guard-live-across-await rule on the reply wait; who-may-mutate rule on the pending table",
             "Atomic id generation (single fetch_add), pending entry registered before the request is sent and keyed by the same id that is put in the header, "
             "replies matched by removed id only, replier echoes request headers, the receiver is awaited only inside timeout(request_timeout) mapped to RequestTimeout.",
             "Durations, u32 wrap-around and server-side isolation (C02) are not decided here.", "§3 C04"),
@@ -44,7 +44,7 @@ TABLE = {
             "FanoutMany/Router never propagate a child error and evict only the failing entry; sweep visits every entry exactly once per call even across "
             "evictions; no reachable panic in either router for any peer failure; a failed/ended replier is unbound.",
             "Real QUIC peer behaviour and fairness not decided.", "§3 C08"),
-    "C09": ("E3", "PollAI: spin (non-consuming cycle) and lost-wake-up (park without registration / while dirty) detection",
+    "C09": ("E3", "PollAI: spin (non-consuming cycle) and lost-wake-up (park without registration / while dirty) detection; sweep-completeness rules on the sink combinators",
             "Exhaustive over all reachable abstract router states of both routers: no cycle of non-consuming edges inside one poll, no Return Pending with an "
             "enabled source not registered or an unflushed sink not pending.",
             "CPU time and executor fairness are not decided.", "§3 C09"),
@@ -52,11 +52,11 @@ TABLE = {
             "Single replier slot never replaced while bound; late replier gets REPLIER_ALREADY_BOUND (same constant the client classifies as retryable), "
             "is told then closed; rebind after the bound replier's stream ends.",
             "Close timing on the wire is not decided.", "§3 C10"),
-    "C11": ("E4+E5", "post-Ok commit rule in handle_stream, panic enumeration over the router region, path rule on handle_reply",
+    "C11": ("E4+E5", "post-Ok commit rule in handle_stream (async helpers inlined), panic enumeration over the router region, PollAI (abandoned peers, poisoned slots), path rule on handle_reply",
             "After Frame::Ok is sent every path hands the socket to the router or is a listed finding; no frame content reaches a panic in the routers; "
             "the client maps Frame::Error to an OpenStream error and only Frame::Ok to success.",
             "quinn behaviour on task panic not decided.", "§3 C11"),
-    "C12": ("E5", "loop-scope, sibling-agreement and classification-table rules over keep_alive MIR",
+    "C12": ("E5", "loop-scope, sibling-agreement and classification-table rules over keep_alive MIR (helpers inlined); wake-on-every-path and pending-has-waker path rules; transport-error pass-through; pending-table discipline",
             "Retry budget iterator created per outage; exhaustion and unrecoverable errors surface; every split_stream is followed by a reader task; "
             "re-registration uses the stream's own headers; recoverable-error classification frozen.",
             "Delivery after a real reconnect, attempt counts and timing are not decided.", "§3 C12"),
